@@ -668,7 +668,10 @@ def materialise(plan):
             if f == "waituntil":
                 from broadbean.broadbean import PulseAtoms
                 f = PulseAtoms.waituntil
-            parts.append(np.asarray(f(*[float(a) for a in args], float(SR), int(n)), dtype=float))
+            with np.errstate(all="ignore"):
+                # SR as a numpy scalar, as in the forger (npts / SR is then a numpy float): degenerate arguments such as
+                # sigma = 0 give inf / nan samples there, not a ZeroDivisionError
+                parts.append(np.asarray(f(*[float(a) for a in args], np.float64(SR), int(n)), dtype=float))
         return np.concatenate(parts) if parts else np.zeros(0)
     if k == "R":
         return expand_rle(plan.a[0])
